@@ -82,15 +82,15 @@ theorem capUpper_sat (r : CHPR) (x : Vec) (i : Nat) :
 
 theorem rampLower_sat (r : CHPR) (x : Vec) (ρ : Rat) (t : Nat) :
     (r.rampLower ρ t).Sat x ↔
-      r.vdPrev x t - (if r.incOn then ρ * x (r.layout.on (t - 1)) else ρ) ≤ r.vd x t := by
+      r.vd x (t - 1) - (if r.incOn then ρ * x (r.layout.on (t - 1)) else ρ) ≤ r.vd x t := by
   cases hh : r.heat <;> cases ho : r.incOn <;>
-    simp [CHPR.rampLower, CHPR.rampDiff, CHPR.virt, CHPR.vd, CHPR.vdPrev, Row.Sat, Row.eval, hh, ho] <;> grind
+    simp [CHPR.rampLower, CHPR.rampDiff, CHPR.virt, CHPR.vd, Row.Sat, Row.eval, hh, ho] <;> grind
 
 theorem rampUpper_sat (r : CHPR) (x : Vec) (ρ : Rat) (t : Nat) :
     (r.rampUpper ρ t).Sat x ↔
-      r.vd x t ≤ r.vdPrev x t + (if r.incOn then ρ * x (r.layout.on t) else ρ) := by
+      r.vd x t ≤ r.vd x (t - 1) + (if r.incOn then ρ * x (r.layout.on t) else ρ) := by
   cases hh : r.heat <;> cases ho : r.incOn <;>
-    simp [CHPR.rampUpper, CHPR.rampDiff, CHPR.virt, CHPR.vd, CHPR.vdPrev, Row.Sat, Row.eval, hh, ho] <;> grind
+    simp [CHPR.rampUpper, CHPR.rampDiff, CHPR.virt, CHPR.vd, Row.Sat, Row.eval, hh, ho] <;> grind
 
 theorem rampFirstLower_sat (r : CHPR) (x : Vec) (ρ : Rat) :
     (r.rampFirstLower ρ).Sat x ↔ (if r.tar = 0 then r.last else r.last - ρ) ≤ r.vd x 0 := by
@@ -99,10 +99,9 @@ theorem rampFirstLower_sat (r : CHPR) (x : Vec) (ρ : Rat) :
 
 theorem rampFirstUpper_sat (r : CHPR) (x : Vec) (ρ : Rat) :
     (r.rampFirstUpper ρ).Sat x ↔
-      r.vd x 0 ≤ (if r.incOn then (if 0 < r.tar then r.last + r.maxCap 0 - ρ else r.last) + ρ * x (r.layout.on 0)
-                  else r.last + ρ) := by
-  cases hh : r.heat <;> cases ho : r.incOn <;> by_cases ht : 0 < r.tar <;>
-    simp [CHPR.rampFirstUpper, CHPR.virt, CHPR.vd, Row.Sat, Row.eval, hh, ho, ht] <;> grind
+      r.vd x 0 ≤ r.last + (if r.incOn then ρ * x (r.layout.on 0) else ρ) := by
+  cases hh : r.heat <;> cases ho : r.incOn <;>
+    simp [CHPR.rampFirstUpper, CHPR.virt, CHPR.vd, Row.Sat, Row.eval, hh, ho] <;> grind
 
 theorem startDefRow_sat (r : CHPR) (x : Vec) (i : Nat) :
     (r.startDefRow i).Sat x ↔ x (r.layout.on (i + 1)) - x (r.layout.on i) ≤ x (r.layout.start (i + 1)) := by
